@@ -240,9 +240,12 @@ impl<T: Types> FlushWorker<T> {
             return Ok(());
         }
 
+        // Forget an older file only after it is synced: if the sync fails the
+        // file must stay in the list, so that the next flush syncs it again
+        // instead of reporting success for data that never reached the disk.
         while files.len() > 1 {
-            let f = files.remove(0);
-            f.f.sync_data()?;
+            files[0].f.sync_data()?;
+            files.remove(0);
         }
 
         // The second last and before are all closed,
